@@ -268,7 +268,7 @@ def sh(cmd, cwd=None, timeout=3600):
     return p.returncode, p.stdout
 
 
-def build(targets):
+def build(targets, lane=None):
     """regenerate the source-derived tables and lake build, as ONE step serialised with a lock so that checks may
     run concurrently (also against different REPO trees during self-tests)."""
     import fcntl
@@ -278,7 +278,8 @@ def build(targets):
         fcntl.flock(lk, fcntl.LOCK_EX)
         changed = extract.regenerate()
         rc, out = sh(['lake', 'build'] + list(targets), cwd=LEAN_DIR)
-    return rc, out, changed
+        aud = audit(lane) if (rc == 0 and lane is not None) else None
+    return rc, out, changed, aud
 
 
 FORBIDDEN = ['sorry', 'admit', 'native_decide', 'bv_decide', 'implemented_by', 'unsafe ', 'maxHeartbeats 0']
@@ -392,7 +393,7 @@ def run_check(prop, tier, seed, replay=None, jobs=None):
     machinery = []
 
     # 1-2. regenerate + build
-    rc, out, gen_changed = build(['CG', 'cgdriver'])
+    rc, out, gen_changed, aud = build(['CG', 'cgdriver'], lane)
     build_ok = rc == 0
     build_log = out[-3000:]
 
@@ -401,7 +402,7 @@ def run_check(prop, tier, seed, replay=None, jobs=None):
     if forb:
         machinery.append('forbidden constructs in the Lean tree: ' + '; '.join(forb[:5]))
     if build_ok:
-        obligations, discharged, axiom_details, bad = audit(lane)
+        obligations, discharged, axiom_details, bad = aud
         if bad:
             machinery.extend(bad)
     else:
